@@ -34,7 +34,9 @@ def fragments(meta):
 
 def run(ctx: Ctx):
     data = logicobl.regenerate()
-    res = logicobl.obligations(ctx, ['sound_core', 'rules_sound', 'c01_valid_sound'], extra_modules=['Ptx.Props.C09'])
+    from .c02 import write_obligations
+    write_obligations(sorted(n for n, d in data.items() if 'fatal' not in d))
+    res = logicobl.obligations(ctx, ['sound_core', 'rules_sound', 'c01_valid_sound'], extra_modules=['Ptx.Props.C09', 'Ptx.Gen.ObHintikka'])
     names = sorted(n for n, d in data.items() if 'fatal' not in d)
     rng = ctx.rng
     nargs = ctx.scale(5, 60)
